@@ -18,6 +18,7 @@ import RbV.Thm.GenSrcSus
 import RbV.Thm.GenSrcLcp
 import RbV.Thm.GenSrcTransform
 import RbV.Thm.GenSrcPosTypes
+import RbV.Thm.GenSrcSaisBuckets
 /-!
 # C03 — suffix array = sorted permutation of all suffixes; LCP; shortest unique substrings
 
@@ -714,5 +715,52 @@ example : (do let ty ← Gen.SrcPosTypes.new [71, 67, 67, 84, 84, 65, 65, 67, 65
               (List.range 22).filterM (Gen.SrcPosTypes.is_lms_pos ty)) = Rs.Res.ok [1, 5, 8, 11, 14, 17, 21] := by decide
 example : Gen.SrcPosTypes.new [] = Rs.Res.panic := by decide
 example : Gen.SrcPosTypes.is_lms_pos [false, true] 2 = Rs.Res.panic := by decide
+
+/-! ### translated text of `Sais::init_bucket_start`, `Sais::init_bucket_end` (`RbV/Gen/SrcSaisBuckets.lean`; builder gensa)
+
+`bucket_sizes` is the `Rs.VecMap` (`contains_key`, `*get_mut(k).unwrap() += 1`, `values()` in ascending key order:
+`RbV/Basic/RsSemGensa.lean`), `cast::<T, usize>` an abstract `castU` that preserves the symbols of the text. -/
+
+/-- translated `init_bucket_start` = the mirror model `Sais.initBucketStart` on **every** text (prefix sums of the counts of
+the occurring symbols in ascending order; the `VecMap` afterwards holds `count` for every occurring symbol and nothing
+else): no missing key at `get_mut(..).unwrap()`, no overflow -/
+theorem init_bucket_start_source_eq_model (castU : Nat → Option Nat) (bs0 : Rs.VecMap) (bst0 t : List Nat)
+    (hc : ∀ c ∈ t, castU c = some c) (hsz : t.length < 2 ^ 64) :
+    ∃ m, Gen.SrcSaisBuckets.init_bucket_start castU bs0 bst0 t = Rs.Res.ok (m, Sais.initBucketStart t) ∧
+      ∀ k, Rs.VecMap.get m k = Sais.cOpt t k :=
+  Thm.GenSrcSaisBuckets.init_bucket_start_spec castU bs0 bst0 t hc hsz
+
+/-- translated `init_bucket_end` = the mirror model `Sais.initBucketEnd` when `bucket_start` is non-empty, its later entries
+are positive and the text is non-empty — exactly what keeps `&bucket_start[1..]`, `r - 1`, `text.len() - 1` from panicking -/
+theorem init_bucket_end_source_eq_model (bst be0 t : List Nat) (hne : t ≠ []) (hb : bst ≠ [])
+    (hpos : ∀ r ∈ bst.drop 1, 1 ≤ r) :
+    Gen.SrcSaisBuckets.init_bucket_end bst be0 t = Rs.Res.ok (Sais.initBucketEnd bst t.length) :=
+  Thm.GenSrcSaisBuckets.init_bucket_end_spec bst be0 t hne hb hpos
+
+/-- **the two translated functions on a text SA-IS accepts** (`Sais.Valid`): `bucket_start[c]` = number of symbols below `c`,
+`bucket_end[c]` = (number of symbols `≤ c`) − 1 — `bucket_start_spec` / `bucket_end_spec` for the code itself -/
+theorem buckets_source_correct (castU : Nat → Option Nat) (bs0 : Rs.VecMap) (bst0 be0 t : List Nat) (hv : Sais.Valid t)
+    (hc : ∀ c ∈ t, castU c = some c) (hsz : t.length < 2 ^ 64) :
+    ∃ m, (do let (m, bst) ← Gen.SrcSaisBuckets.init_bucket_start castU bs0 bst0 t
+             let be ← Gen.SrcSaisBuckets.init_bucket_end bst be0 t
+             pure (m, bst, be)) =
+      Rs.Res.ok (m, (List.range (Sais.maxSucc t)).map (Sais.cntLt t),
+        (List.range (Sais.maxSucc t)).map (fun c => Sais.cntLt t (c + 1) - 1)) := by
+  obtain ⟨m, h1, _⟩ := Thm.GenSrcSaisBuckets.init_bucket_start_spec castU bs0 bst0 t hc hsz
+  have hne : t ≠ [] := by intro e; have := hv.pos; rw [e] at this; simp at this
+  refine ⟨m, ?_⟩
+  rw [h1]
+  simp only [Rs.Res.ok_bind]
+  rw [Thm.GenSrcSaisBuckets.init_bucket_end_valid be0 t hv]
+  simp only [Rs.Res.ok_bind, Rs.Res.pure_eq_ok]
+  rw [Sais.initBucketEnd_eq t hne hv.dense, Sais.initBucketStart_eq t hv.dense]
+
+-- the integer text of the doc test of `suffix_array_int` through the translated code
+example : (do let (m, bst) ← Gen.SrcSaisBuckets.init_bucket_start some [] [] [3, 2, 2, 4, 4, 1, 2, 1, 0]
+              let be ← Gen.SrcSaisBuckets.init_bucket_end bst [] [3, 2, 2, 4, 4, 1, 2, 1, 0]
+              pure (bst, be)) = Rs.Res.ok ([0, 1, 3, 6, 7], [0, 2, 5, 6, 8]) := by decide
+-- a symbol that does not fit `usize` (`cast(c).unwrap()`), and the empty text (`&bucket_start[1..]`), panic
+example : Gen.SrcSaisBuckets.init_bucket_start (fun _ => none) [] [] [1, 0] = Rs.Res.panic := by decide
+example : Gen.SrcSaisBuckets.init_bucket_end [] [] [] = Rs.Res.panic := by decide
 
 end RbV.Thm.C03
